@@ -105,11 +105,24 @@ theorem Keeps.condIfDeclared {P : Store → Prop} (defs : Defs) (proj name : Str
   · exact Keeps.condOption _ _
   · exact Keeps.pure' _
 
-theorem interpProg_keeps (first : Bool) (ini : List Str) (top sub : Defs) (a b c cmd : Dict) :
-    Keeps StoreInv (interpProg first ini top sub a b c cmd) := by
+theorem interpExtras_keeps (first : Bool) (ini : List Str) (cmd : Dict) :
+    ∀ (l : List Extra), Keeps StoreInv (interpExtras first ini cmd l)
+  | [] => Keeps.pure' _
+  | x :: r => by
+    have ih := interpExtras_keeps first ini cmd r
+    unfold interpExtras
+    refine Keeps.bind' (loadOptionFile_keeps _ _) (fun _ => Keeps.bind' ?_ (fun _ =>
+      Keeps.bind' (Keeps.readAll _ _) (fun _ => Keeps.bind' ih (fun _ => Keeps.pure' _))))
+    split
+    · exact keeps_of_two (PresW.initSub _ _ _ _ _) (PresPC.initSub _ _ _ _ _)
+    · exact Keeps.pure' _
+
+theorem interpProg_keeps (first : Bool) (ini : List Str) (top sub : Defs) (a b c cmd : Dict) (more : List Extra) :
+    Keeps StoreInv (interpProg first ini top sub a b c cmd more) := by
   unfold interpProg
   repeat (first
     | exact loadOptionFile_keeps _ _
+    | exact interpExtras_keeps _ _ _ _
     | exact keeps_of_two (PresW.initTop _ _ _) (PresPC.initTop _ _ _)
     | exact keeps_of_two (PresW.initSub _ _ _ _ _) (PresPC.initSub _ _ _ _ _)
     | exact Keeps.readAll _ _ | exact Keeps.condIfDeclared _ _ _
@@ -121,6 +134,9 @@ theorem interpProg_keeps (first : Bool) (ini : List Str) (top sub : Defs) (a b c
 
 theorem setFromConfigure_keeps (args : List (Key × Option Val)) (d : Bool) : Keeps StoreInv (setFromConfigure args d) :=
   keeps_of_two (PresW.setFromConfigure args d) (PresPC.setFromConfigure args d)
+
+theorem setFromConfigureCommand_keeps (args : List (Key × Option Val)) : Keeps StoreInv (setFromConfigureCommand args) :=
+  setFromConfigure_keeps _ false
 
 /-! ## the directory invariant and `step` -/
 
@@ -143,8 +159,8 @@ theorem newCore_inv : StoreInv newCore.store := by
 theorem interpret_inv (first : Bool) (c : Core) (d : Dir) (cmd : Dict) (r : Interp)
     (h : interpret first c d cmd = .ok r) (hc : StoreInv c.store) : StoreInv r.core.store := by
   simp only [interpret] at h
-  have hk := (interpProg_keeps first c.initialized d.topEff d.subEff d.pdoTop d.pdoSub d.spcall cmd).run c.store hc
-  cases hr : interpProg first c.initialized d.topEff d.subEff d.pdoTop d.pdoSub d.spcall cmd c.store with
+  have hk := (interpProg_keeps first c.initialized d.topEff d.subEff d.pdoTop d.pdoSub d.spcall cmd d.more).run c.store hc
+  cases hr : interpProg first c.initialized d.topEff d.subEff d.pdoTop d.pdoSub d.spcall cmd d.more c.store with
   | mk res s' =>
     rw [hr] at h hk
     cases res with
@@ -191,8 +207,8 @@ theorem firstInvocation_inv (d : Dir) (so : Dict) (hd : DirInv d) : DirInv (firs
 theorem reconfigure_inv (d : Dir) (c : Core) (nd : Dict) (hd : DirInv d) (hc : d.core = some c) :
     DirInv (reconfigure d c nd).1 := by
   unfold reconfigure
-  have h0 := (setFromConfigure_keeps (dArgs nd) false).run c.store (hd c hc)
-  cases hs : setFromConfigure (dArgs nd) false c.store with
+  have h0 := (setFromConfigureCommand_keeps (dArgs nd)).run c.store (hd c hc)
+  cases hs : setFromConfigureCommand (dArgs nd) c.store with
   | mk res s1 =>
     rw [hs] at h0
     cases res with
@@ -227,8 +243,8 @@ theorem configure_inv (d : Dir) (args : List (Key × Option Val)) (hd : DirInv d
         | error e => exact hd
         | ok files =>
           dsimp only
-          have h2 := (setFromConfigure_keeps args false).run s1 h1
-          cases hs : setFromConfigure args false s1 with
+          have h2 := (setFromConfigureCommand_keeps args).run s1 h1
+          cases hs : setFromConfigureCommand args s1 with
           | mk res2 s2 =>
             rw [hs] at h2
             cases res2 with
@@ -254,7 +270,7 @@ theorem step_inv (d : Dir) (c : Cmd) (hd : DirInv d) : DirInv (step d c).1 := by
       simp only []
       split
       · exact hd
-      · exact firstInvocation_inv d nd hd
+      · exact firstInvocation_inv d _ hd
   | configure args => exact configure_inv d args hd
   | reconfigure nd =>
     simp only [step]
@@ -262,9 +278,7 @@ theorem step_inv (d : Dir) (c : Cmd) (hd : DirInv d) : DirInv (step d c).1 := by
     | some c0 => exact reconfigure_inv d c0 nd hd hcore
     | none =>
       simp only []
-      split
-      · exact firstInvocation_inv d _ hd
-      · exact firstInvocation_inv d nd hd
+      exact firstInvocation_inv d _ hd
   | wipe nd =>
     simp only [step]
     exact firstInvocation_inv _ _ (fun c h => by simp at h)
@@ -279,6 +293,8 @@ theorem step_inv (d : Dir) (c : Cmd) (hd : DirInv d) : DirInv (step d c).1 := by
     · exact hd
   | fileSet b f =>
     cases b <;> (intro c0 h0; simp only [step] at h0; exact hd c0 h0)
+  | extra p e =>
+    intro c0 h0; simp only [step] at h0; exact hd c0 h0
 
 /-- every history from a well-formed directory ends in a well-formed directory -/
 theorem runHist_inv : ∀ (h : List Cmd) (d : Dir), DirInv d → DirInv (runHist d h)
